@@ -4,6 +4,7 @@ See DESIGN.md §2.2 for the subset and the encoding assumptions.  Anything outsi
 `Unsupported` (mapped to exit 2 by the runner), never a silent skip.
 """
 import ast
+import os
 import z3
 
 from . import sorts as S
@@ -19,10 +20,11 @@ class Unsupported(Exception):
 
 class V:
     """typed symbolic value: z3 PyObj term + static type (hint, always justified by the path condition)"""
-    __slots__ = ('t', 'ty', 'truth_hint')
+    __slots__ = ('t', 'ty', 'truth_hint', 'um')
 
     def __init__(self, t, ty=S.Any, truth_hint=None):
         self.t, self.ty = t, ty
+        self.um = False                   # value read from an unmodelled attribute (Exec.field_type)
         self.truth_hint = truth_hint      # for `a and b` / `a or b`: the truth value as the conjunction / disjunction of the operands' truth values (logically equal to truth(t))
 
     def __repr__(self):
@@ -401,6 +403,265 @@ def const_to_term(v):
     raise Unsupported(f'constant of type {type(v).__name__}')
 
 
+_LOOP_HEADERS = None
+_FN_SHAPES = None
+
+
+def fn_shape(fn):
+    """(shape hash, names in first-occurrence order, local names) of a function: the AST with every ast.Name id replaced by the index of its first occurrence.
+    Two functions with the same shape differ only by a consistent, injective renaming of the identifiers used as ast.Name (parameters, attributes, keywords and
+    strings are kept as they are)."""
+    import copy
+    import hashlib
+    t = copy.deepcopy(fn)
+    order = {}
+    locals_ = set()
+    declared = set()
+    for n in ast.walk(t):
+        if isinstance(n, (ast.Global, ast.Nonlocal)):
+            declared.update(n.names)
+    for n in ast.walk(t):
+        if isinstance(n, ast.Name):
+            if isinstance(n.ctx, (ast.Store, ast.Del)):
+                locals_.add(n.id)
+            order.setdefault(n.id, len(order))
+            n.id = f'${order[n.id]}'
+    params = {a.arg for a in ast.walk(fn) if isinstance(a, ast.arg)}
+    names = sorted(order, key=order.get)
+    return (hashlib.sha256(ast.dump(t, include_attributes=False).encode()).hexdigest()[:16], names, sorted(locals_ - declared - params))
+
+
+def _recorded_fn_shapes():
+    global _FN_SHAPES
+    if _FN_SHAPES is None:
+        import json
+        p = os.path.join(os.path.dirname(os.path.dirname(os.path.abspath(__file__))), 'fn_shapes.json')
+        try:
+            with open(p) as fh:
+                _FN_SHAPES = json.load(fh)
+        except (OSError, ValueError):
+            _FN_SHAPES = {}
+    return _FN_SHAPES
+
+
+def comprehensions_as_recorded_loops(fn, contract_name):
+    """A loop the contract has a specification for (recorded header in loop_headers.json) that now appears as `T = [elt for x in it if c]` is put back into loop form
+    (`T = []; for x in it: if c: T.append(elt)`, an `A if C else B` element with a call in a branch as if/else around the append), so that the loop specification
+    applies again. Python semantics are preserved when T does not occur in the comprehension and x occurs nowhere else in the function (both checked); nothing is done
+    for any other comprehension or when no recorded loop is missing. Returns (function, [headers put back])."""
+    base = _recorded_loop_headers().get(contract_name)
+    if not base:
+        return fn, []
+    missing = list(base)
+    for h in loop_headers_of(fn):
+        if h in missing:
+            missing.remove(h)
+    if not missing:
+        return fn, []
+    import copy
+    t = copy.deepcopy(fn)
+    done = []
+    all_names = [n.id for n in ast.walk(t) if isinstance(n, ast.Name)]
+
+    def has_call(e):
+        return any(isinstance(x, ast.Call) for x in ast.walk(e))
+
+    def append_stmts(T, elt):
+        if isinstance(elt, ast.IfExp) and (has_call(elt.body) or has_call(elt.orelse)):
+            return [ast.If(test=elt.test, body=append_stmts(T, elt.body), orelse=append_stmts(T, elt.orelse))]
+        return [ast.Expr(value=ast.Call(func=ast.Attribute(value=ast.Name(id=T, ctx=ast.Load()), attr='append', ctx=ast.Load()), args=[elt], keywords=[]))]
+
+    def rewrite(block):
+        out = []
+        for s in block:
+            for fld in ('body', 'orelse', 'finalbody'):
+                if isinstance(getattr(s, fld, None), list) and not isinstance(s, (ast.FunctionDef, ast.AsyncFunctionDef, ast.ClassDef, ast.Lambda)):
+                    setattr(s, fld, rewrite(getattr(s, fld)))
+            for h_ in getattr(s, 'handlers', []) or []:
+                h_.body = rewrite(h_.body)
+            if (isinstance(s, ast.Assign) and len(s.targets) == 1 and isinstance(s.targets[0], ast.Name) and isinstance(s.value, ast.ListComp)
+                    and len(s.value.generators) == 1 and not s.value.generators[0].is_async):
+                g = s.value.generators[0]
+                T = s.targets[0].id
+                header = 'for ' + ast.unparse(g.target) + ' in ' + ast.unparse(g.iter)
+                inner = [n.id for n in ast.walk(s.value) if isinstance(n, ast.Name)]
+                tnames = [n.id for n in ast.walk(g.target) if isinstance(n, ast.Name)]
+                if header in missing and T not in inner and all(all_names.count(x) == inner.count(x) for x in tnames):
+                    body = append_stmts(T, s.value.elt)
+                    if g.ifs:
+                        body = [ast.If(test=(g.ifs[0] if len(g.ifs) == 1 else ast.BoolOp(op=ast.And(), values=list(g.ifs))), body=body, orelse=[])]
+                    tgt = copy.deepcopy(g.target)
+                    for n in ast.walk(tgt):
+                        if isinstance(n, (ast.Name, ast.Tuple, ast.List)):
+                            n.ctx = ast.Store()
+                    init = ast.Assign(targets=[ast.Name(id=T, ctx=ast.Store())], value=ast.List(elts=[], ctx=ast.Load()))
+                    loop = ast.For(target=tgt, iter=g.iter, body=body, orelse=[])
+                    for n_ in (init, loop):
+                        ast.copy_location(n_, s)
+                        ast.fix_missing_locations(n_)
+                    out += [init, loop]
+                    missing.remove(header)
+                    done.append(header)
+                    continue
+            out.append(s)
+        return out
+    t.body = rewrite(t.body)
+    return (t, done) if done else (fn, [])
+
+
+def inline_explaining_temporaries(fn):
+    """`t = <pure expression>` directly followed by the only use of t, with nothing but names/constants evaluated before that use in the following statement (or in the
+    test of the following if/while), is the same as writing the expression in place. Returns (function copy with such temporaries inlined, [names]) — applied repeatedly."""
+    import copy
+    t = copy.deepcopy(fn)
+    done = []
+
+    def pure(e):
+        return not any(isinstance(n, (ast.Call, ast.Await, ast.Yield, ast.YieldFrom, ast.NamedExpr, ast.Lambda, ast.ListComp, ast.SetComp, ast.DictComp, ast.GeneratorExp))
+                       for n in ast.walk(e))
+
+    def counts(name):
+        st = sum(1 for n in ast.walk(t) if isinstance(n, ast.Name) and n.id == name and isinstance(n.ctx, (ast.Store, ast.Del)))
+        ld = sum(1 for n in ast.walk(t) if isinstance(n, ast.Name) and n.id == name and isinstance(n.ctx, ast.Load))
+        return st, ld
+
+    def head_expr(s):
+        """the expressions of statement s that are evaluated first (before any nested block)"""
+        if isinstance(s, (ast.If, ast.While)):
+            return [s.test]
+        if isinstance(s, ast.For):
+            return [s.iter]
+        if isinstance(s, (ast.Expr, ast.Return)):
+            return [s.value] if s.value is not None else []
+        if isinstance(s, ast.Assign):
+            return [s.value] if all(isinstance(x, ast.Name) for x in s.targets) else []
+        if isinstance(s, ast.AugAssign):
+            return [s.value] if isinstance(s.target, ast.Name) else []
+        return []
+
+    def try_block(block):
+        for i in range(len(block) - 1):
+            s, nxt = block[i], block[i + 1]
+            if not (isinstance(s, ast.Assign) and len(s.targets) == 1 and isinstance(s.targets[0], ast.Name) and pure(s.value)):
+                continue
+            name = s.targets[0].id
+            if counts(name) != (1, 1):
+                continue
+            heads = head_expr(nxt)
+            uses = [n for h in heads for n in ast.walk(h) if isinstance(n, ast.Name) and n.id == name]
+            if len(uses) != 1:
+                continue
+            use = uses[0]
+            h = [h for h in heads if any(n is use for n in ast.walk(h))][0]
+            # nothing with an effect may be evaluated before the use inside h: no call at all in h before the use position; names read by the value are not rebound
+            before = [n for n in ast.walk(h) if isinstance(n, (ast.Call, ast.Await, ast.NamedExpr)) and (n.lineno, n.col_offset) < (use.lineno, use.col_offset)]
+            if before:
+                continue
+            # replace
+            class R(ast.NodeTransformer):
+                def visit_Name(self_, n):
+                    return copy.deepcopy(s.value) if n is use else n
+            newh = R().visit(h)
+            for fld, val in ast.iter_fields(nxt):
+                if val is h:
+                    setattr(nxt, fld, newh)
+            del block[i]
+            done.append(name)
+            return True
+        return False
+
+    def walk_blocks(node):
+        changed = False
+        for fld in ('body', 'orelse', 'finalbody'):
+            blk = getattr(node, fld, None)
+            if isinstance(blk, list) and blk and isinstance(blk[0], ast.stmt):
+                while try_block(blk):
+                    changed = True
+                for ch in blk:
+                    if not isinstance(ch, (ast.FunctionDef, ast.AsyncFunctionDef, ast.ClassDef)):
+                        changed = walk_blocks(ch) or changed
+        for h_ in getattr(node, 'handlers', []) or []:
+            changed = walk_blocks(h_) or changed
+        return changed
+    walk_blocks(t)
+    ast.fix_missing_locations(t)
+    return (t, done) if done else (fn, [])
+
+
+def undo_local_renaming(fn, contract_name):
+    """Contracts name locals (invariants, hooks keyed by statement text). When the current function is the recorded one up to a consistent injective renaming of
+    LOCAL variables (same shape, every differing name a local on both sides), return (a copy with the recorded names restored, {current name: recorded name});
+    the copy is alpha-equivalent to the real function. Otherwise (fn, {})."""
+    rec = _recorded_fn_shapes().get(contract_name)
+    if not rec:
+        return fn, {}
+    shape, names, locals_ = fn_shape(fn)
+    if shape != rec['shape']:
+        # explaining temporaries added since the contract was written? (`t = <pure expr>` used once in the next statement)
+        fn2, inlined = inline_explaining_temporaries(fn)
+        if inlined:
+            shape2, names2, locals2 = fn_shape(fn2)
+            if shape2 == rec['shape']:
+                fn, shape, names, locals_ = fn2, shape2, names2, locals2
+                if names == rec['names']:
+                    return fn, {'(inlined temporaries)': ', '.join(inlined)}
+    if names == rec['names'] or shape != rec['shape'] or len(names) != len(rec['names']):
+        return fn, {}
+    back = {new: old for new, old in zip(names, rec['names']) if new != old}
+    if not all(new in locals_ for new in back) or not all(old in rec['locals'] for old in back.values()):
+        return fn, {}
+    import copy
+    t = copy.deepcopy(fn)
+    for n in ast.walk(t):
+        if isinstance(n, ast.Name) and n.id in back:
+            n.id = back[n.id]
+    return t, back
+
+
+def loop_header(node):
+    """the header text a loop is recognised by"""
+    if isinstance(node, ast.While):
+        return 'while ' + ast.unparse(node.test)
+    return 'for ' + ast.unparse(node.target) + ' in ' + ast.unparse(node.iter)
+
+
+def loop_headers_of(fn):
+    """header texts of the loops of fn in ordinal order (same traversal as Exec._number_loops)"""
+    out = []
+
+    class Vis(ast.NodeVisitor):
+        def visit_For(v, node):
+            out.append(loop_header(node))
+            v.generic_visit(node)
+
+        def visit_While(v, node):
+            out.append(loop_header(node))
+            v.generic_visit(node)
+
+        def visit_FunctionDef(v, node):
+            if node is fn:
+                v.generic_visit(node)
+
+        def visit_ListComp(v, node):
+            pass
+
+    Vis().visit(fn)
+    return out
+
+
+def _recorded_loop_headers():
+    global _LOOP_HEADERS
+    if _LOOP_HEADERS is None:
+        import json
+        p = os.path.join(os.path.dirname(os.path.dirname(os.path.abspath(__file__))), 'loop_headers.json')
+        try:
+            with open(p) as fh:
+                _LOOP_HEADERS = json.load(fh)
+        except (OSError, ValueError):
+            _LOOP_HEADERS = {}
+    return _LOOP_HEADERS
+
+
 class Exec:
     """symbolic execution of one function against its contract"""
 
@@ -413,6 +674,9 @@ class Exec:
         self.c = contract
         self.mod = source.load(contract.file)
         self.fn = fn_ast if fn_ast is not None else self.mod.function(contract.qualname)
+        self.real_fn = self.fn
+        self.fn, self.renamed_locals = undo_local_renaming(self.fn, contract.name)
+        self.fn, self.relooped = comprehensions_as_recorded_loops(self.fn, contract.name)
         self.cls = contract.qualname.split('.')[0] if '.' in contract.qualname else None
         self.vcs = []
         self.init_heap = {}
@@ -462,6 +726,50 @@ class Exec:
 
         Vis().visit(fn)
         self.n_loops = n
+        # Loop specifications are keyed by ordinal. When the function gained / lost / reordered loops since the contract was written (loop_headers.json, recorded at
+        # --rebaseline), align the loops by their header text so that every specification stays with ITS loop; loops without a recorded counterpart get fresh
+        # ordinals (no specification: the default havoc applies). An unchanged function keeps the identity numbering.
+        base = _recorded_loop_headers().get(self.c.name)
+        if base is not None:
+            nodes = sorted(((o, nid) for nid, o in self.loop_ordinals.items()))
+            by_id = {}
+            for node in ast.walk(fn):
+                if id(node) in self.loop_ordinals:
+                    by_id[id(node)] = node
+            cur = [loop_header(by_id[nid]) for _, nid in nodes]
+            if cur != base:
+                # longest common subsequence of header texts
+                m_, n_ = len(base), len(cur)
+                T = [[0] * (n_ + 1) for _ in range(m_ + 1)]
+                for i in range(m_ - 1, -1, -1):
+                    for j in range(n_ - 1, -1, -1):
+                        T[i][j] = T[i + 1][j + 1] + 1 if base[i] == cur[j] else max(T[i + 1][j], T[i][j + 1])
+                i = j = 0
+                match = {}
+                while i < m_ and j < n_:
+                    if base[i] == cur[j]:
+                        match[j] = i + 1
+                        i += 1
+                        j += 1
+                    elif T[i + 1][j] >= T[i][j + 1]:
+                        i += 1
+                    else:
+                        j += 1
+                # same number of loops: an unmatched loop whose position's recorded ordinal is unmatched too is that loop with an edited header
+                if m_ == n_:
+                    taken = set(match.values())
+                    for j in range(n_):
+                        if j not in match and (j + 1) not in taken:
+                            match[j] = j + 1
+                            taken.add(j + 1)
+                extra = max(m_, n_)
+                for j, (_, nid) in enumerate(nodes):
+                    if j in match:
+                        self.loop_ordinals[nid] = match[j]
+                    else:
+                        extra += 1
+                        self.loop_ordinals[nid] = extra
+                self.loop_remap = {j + 1: self.loop_ordinals[nid] for j, (_, nid) in enumerate(nodes)}
 
     # ---- infrastructure ------------------------------------------------------------------------------------
     def initial_field(self, name):
@@ -731,6 +1039,8 @@ class Exec:
             spec = m.get(fld, m.get('*', None))
             if spec is True:
                 continue
+            if fld.startswith('attr:') and fld[5:] in getattr(self, 'unmodelled_attrs', ()):
+                continue
             a = z3.Int('fr_a')
             outside = z3.And(a > 0, a < old_next)
             if spec is None:
@@ -765,6 +1075,10 @@ class Exec:
     def stmt(self, s, st):
         if self.c.stop_before and ast.unparse(s).startswith(self.c.stop_before):
             # prefix verification: the contract speaks about the state reached here; nothing after this statement is executed
+            # (before_stmt hooks of the stopping statement still run: they state what must hold when it is reached)
+            for prefix, hook in self.before_hooks:
+                if ast.unparse(s).startswith(prefix):
+                    hook(self, st, s)
             self.stopped_at = s.lineno
             st.ghost['$stopped'] = True
             return [Outcome('return', st, V(S.NONE(), S.NoneT))]
@@ -1132,6 +1446,16 @@ class Exec:
             # changed code uses an attribute the contracts do not know: an untyped field (reads are unconstrained)
             self.notes.append(f'lenient: attribute {ci.name}.{attr} has no declared type; treated as untyped')
             return S.Any
+        if not any(attr in info.fields for info in self.reg.classes.values()):
+            # an attribute NO class of this registry declares (e.g. a statistics counter added next to the mechanism): no specification can mention it. It is an
+            # untyped heap field of its own, tracked inside this function, arbitrary at entry, havocked at every call (any callee may write it) and exempt from the
+            # frame conditions (which are about the declared state)
+            if not hasattr(self, 'unmodelled_attrs'):
+                self.unmodelled_attrs = set()
+            if attr not in self.unmodelled_attrs:
+                self.unmodelled_attrs.add(attr)
+                self.notes.append(f'attribute {ci.name}.{attr} is not declared by any contract class: unmodelled field (havocked at calls, outside the frame conditions)')
+            return S.Any
         return None
 
     def set_item(self, o, k, v, st, desc):
@@ -1284,7 +1608,10 @@ class Exec:
                 raise Unsupported(f'{ty.cls}.{attr} has no declared type ({desc})')
             t = st.sel('attr:' + attr, S.addr(o.t))
             st.assume(S.has_type(t, fty, st.next_ref))
-            return V(t, fty)
+            rv = V(t, fty)
+            if attr in getattr(self, 'unmodelled_attrs', ()):
+                rv.um = True
+            return rv
         if ty.kind == 'val':
             ci = self.class_info(ty.cls)
             if attr not in ci.fields:
@@ -1670,6 +1997,12 @@ class Exec:
         return self.binop(e.op, l, r, st, ast.unparse(e))
 
     def binop(self, op, l, r, st, desc):
+        if getattr(l, 'um', False) or getattr(r, 'um', False):
+            # arithmetic on an unmodelled attribute (see field_type): the result is as unknown as the operand; whether it can raise is not examined
+            v = V(S.fresh('um_val'), S.Any)
+            v.um = True
+            st.assume(below(v.t, st.next_ref))
+            return v
         lk, rk = l.ty.kind, r.ty.kind
         if lk == 'any' and rk in ('int', 'str'):
             self.safety(st, 'TypeError', desc, S.has_type(l.t, r.ty)); lk = rk
@@ -1938,7 +2271,7 @@ class Exec:
         self.called_contracts.add(contract.key)
         bh = getattr(self.c, 'before_call_hooks', {}).get(contract.qualname)
         if bh is not None:
-            bh(self, st, None)
+            bh(self, st, bound)       # third argument: the bound arguments {parameter name: V} of this call
         # parameter types
         for n, ty in contract.params.items():
             v = bound[n]
@@ -1950,6 +2283,9 @@ class Exec:
         for nm, f in contract.requires:
             self.oblige(st, f'{tag}:pre:{nm}', f(cx), kind='call-pre')
             st.assume(f(cx))
+        # fields no contract knows about: any callee may write them
+        for ua in sorted(getattr(self, 'unmodelled_attrs', ())):
+            st.set_field('attr:' + ua, S.fresh('ua_' + ua, st.field('attr:' + ua).sort()))
         # havoc the frame
         m = dict(self.modifies_map(contract, cx))
         old_next = st.next_ref
